@@ -12,8 +12,11 @@ sys.setrecursionlimit(200000)
 VERIF = os.path.dirname(os.path.dirname(os.path.abspath(__file__)))
 REPO = os.environ.get("VERIF_REPO", "/repo")
 SPEC = os.path.join(VERIF, "spec")
-WORK = os.path.join(VERIF, "work")
-HARNESS = os.path.join(VERIF, "harness")
+# VERIF_WORK / VERIF_HARNESS / VERIF_OUT are only used by tools/try_seed.sh to run the checks against a
+# scratch copy of the repository (seeded mutants) without touching /repo, the caches or the evidence files
+WORK = os.environ.get("VERIF_WORK", os.path.join(VERIF, "work"))
+HARNESS = os.environ.get("VERIF_HARNESS", os.path.join(VERIF, "harness"))
+OUTDIR = os.environ.get("VERIF_OUT", VERIF)
 TLA_JAR = "/opt/veriftools/tla/tla2tools.jar"
 TLA_CP = TLA_JAR + ":/opt/veriftools/tla/CommunityModules-deps.jar"
 NCPU = os.cpu_count() or 4
@@ -298,8 +301,8 @@ def write_evidence(out, tier, seed, wall):
     }
     if out.known:
         ev["known_findings_reproduced"] = out.known
-    os.makedirs(os.path.join(VERIF, "evidence"), exist_ok=True)
-    path = os.path.join(VERIF, "evidence", out.prop + ".json")
+    os.makedirs(os.path.join(OUTDIR, "evidence"), exist_ok=True)
+    path = os.path.join(OUTDIR, "evidence", out.prop + ".json")
     with open(path + ".tmp", "w") as f:
         json.dump(ev, f, indent=1, sort_keys=True)
     os.replace(path + ".tmp", path)
@@ -307,7 +310,7 @@ def write_evidence(out, tier, seed, wall):
 
 
 def write_replay(prop, idx, payload):
-    d = os.path.join(VERIF, "replays")
+    d = os.path.join(OUTDIR, "replays")
     os.makedirs(d, exist_ok=True)
     path = os.path.join(d, "%s-%d.json" % (prop, idx))
     with open(path, "w") as f:
